@@ -168,12 +168,62 @@ void World::opBuild(const Item& op)
     const int objId = static_cast<int>(op.get("obj", 0)) * 256 + cls;
     const std::string cn = clsName(cls);
     BuilderSlot& slot = builders[objId];
-    if (!slot.b || op.get("fresh", 0))
+    const size_t fixedSz = wire::fixedSize(static_cast<wire::Kind>(cls));
+    auto zeroLengthBytes = [&](Bytes& h)
+    {
+        // the bytes setData derives from the data (not "header fields set earlier")
+        switch (cls)
+        {
+            case wire::K_CAN:
+            case wire::K_CANFD:
+                if (h.size() > 15)
+                    h[14] = h[15] = 0;
+                break;
+            case wire::K_LIN:
+                if (h.size() > 7)
+                    h[7] = 0;
+                break;
+            case wire::K_ETH:
+                if (h.size() > 5)
+                    h[4] = h[5] = 0;
+                break;
+            default:
+                break;
+        }
+    };
+    if (op.get("fromwire", 0))
+    {
+        // an object born from wire bytes: well-formed header fields, but length / DLC bytes poked to values that need not
+        // match, and possibly a buffer shorter than the header
+        Bytes w = makePayload(cls, static_cast<size_t>(std::max<int64_t>(0, op.get("wlen", 0))), static_cast<uint32_t>(op.get("wid", 7)));
+        if (op.has("wl1") && w.size() > 15 && (cls == wire::K_CAN || cls == wire::K_CANFD))
+        {
+            w[14] = static_cast<uint8_t>(op.get("wl1") & 0x0F);
+            w[15] = static_cast<uint8_t>(std::min<size_t>(w.size() - 16, static_cast<size_t>(op.get("wl2", 0) & 0xFF)));
+        }
+        if (op.has("wcut"))
+            w.resize(std::min<size_t>(w.size(), static_cast<size_t>(std::max<int64_t>(0, op.get("wcut")))));
+        slot = BuilderSlot();
+        uint8_t* hb = new uint8_t[w.size() ? w.size() : 1];
+        if (!w.empty())
+            memcpy(hb, w.data(), w.size());
+        slot.b = std::make_unique<lib::Builder>(cls, hb, w.size());
+        delete[] hb;
+        slot.fromWire = true;
+        slot.wireHeader.assign(w.begin(), w.begin() + std::min(w.size(), fixedSz));
+        slot.wireHeader.resize(fixedSz, 0);  // bytes the buffer did not have are zero in a value-initialised payload
+        zeroLengthBytes(slot.wireHeader);
+        probe(w.size() < fixedSz ? "built-from-short-wire-bytes" : "built-from-wire-bytes");
+        res.apiCalls++;
+    }
+    else if (!slot.b || op.get("fresh", 0))
     {
         slot = BuilderSlot();
         slot.b = std::make_unique<lib::Builder>(cls);
     }
-    if (op.get("hdr", 0))
+    // header setters on an object that is shorter than its own header would write outside it: that is misuse of the API,
+    // not something C13 speaks about, so such (short from-wire) objects get their header fields only after the first setData
+    if (op.get("hdr", 0) && slot.b->raw().size() >= fixedSz + (cls == wire::K_CMSTAT ? 10 : (cls == wire::K_IFSTAT ? 4 : 0)))
     {
         slot.fields = fieldsFromSeed(cls, static_cast<uint64_t>(op.get("hseed", 1)));
         slot.hasFields = true;
@@ -274,7 +324,7 @@ void World::opBuild(const Item& op)
             }
         }
     }
-    else
+    else if (after.size() < fixed)
         violate("build.render." + cn, "payload shorter than its fixed part");
     // rendering
     if (after.size() >= fixed)
@@ -342,7 +392,24 @@ void World::opBuild(const Item& op)
     }
     // fresh differential: a new object given the same final content
     {
-        lib::Builder fresh(cls);
+        std::unique_ptr<lib::Builder> freshP;
+        if (slot.fromWire && cls != wire::K_CMSTAT && cls != wire::K_IFSTAT)
+        {
+            // the twin is born from the same header fields (header bytes only, derived length bytes zeroed)
+            uint8_t* hb = new uint8_t[slot.wireHeader.size() ? slot.wireHeader.size() : 1];
+            memcpy(hb, slot.wireHeader.data(), slot.wireHeader.size());
+            freshP = std::make_unique<lib::Builder>(cls, hb, slot.wireHeader.size());
+            delete[] hb;
+        }
+        else if (slot.fromWire)
+        {
+            Bytes hb(slot.wireHeader);
+            hb.resize(fixed + (cls == wire::K_CMSTAT ? 10 : 4), 0);
+            freshP = std::make_unique<lib::Builder>(cls, hb.data(), hb.size());
+        }
+        else
+            freshP = std::make_unique<lib::Builder>(cls);
+        lib::Builder& fresh = *freshP;
         if (slot.hasFields)
             fresh.setHeaderFields(slot.fields);
         fresh.setData(bd);
